@@ -27,10 +27,19 @@
 #include <algorithm>
 #include <cstdio>
 #include <cstring>
-#define private public      // the harness reads (and, for the id wrap-around, sets) the send cursor and reads the ReceiveStates; no layout change
+// TUN_PRIVATE_STATE (on unless TUN_NO_PRIVATE_STATE is defined, see tun_public.cpp): the harness also reads the gateways' private state
+// (send cursor, ReceiveStates: compared with the specification step by step, DRIFT level) and sets the id counters (wrap-around inside
+// the runs).  Without it the harness uses the public API only - the property-level judging (TunAbs monitor on every delivery, exactly-once
+// at quiet ends, event log) is complete either way - so a refactoring of private members cannot blind the check.
+#ifndef TUN_NO_PRIVATE_STATE
+# define TUN_PRIVATE_STATE 1
+# define private public      // no layout change
+#endif
 #include "iogateway/PacketTunnelIOGateway.h"
 #include "iogateway/MiniPacketTunnelIOGateway.h"
-#undef private
+#ifdef TUN_PRIVATE_STATE
+# undef private
+#endif
 #include "iogateway/MessageIOGateway.h"
 #include "iogateway/RawDataMessageIOGateway.h"
 #include "zlib/ZLibCodec.h"
@@ -38,6 +47,11 @@
 #include "mjson.h"
 using namespace muscle;
 
+#ifdef TUN_PRIVATE_STATE
+static const bool PRIVATE_STATE = true;
+#else
+static const bool PRIVATE_STATE = false;
+#endif
 static const uint32 TUN_H = 24, MINI_PH = 12, MINI_CH = 4;
 static const uint32 SLAVE_LIMIT = 1168;   // F15: ProxyIOGateway's internal ByteBufferPacketDataIO keeps MUSCLE_MAX_PAYLOAD_BYTES_PER_UDP_ETHERNET_PACKET
 
@@ -56,6 +70,13 @@ static IPAddressAndPort AddrOf(int s)
    return IPAddressAndPort(IPAddress(0x0A000001u + (otherHost ? 1 : 0) + ((s > 3) ? (uint32) s : 0)), (uint16) (4001 + (otherPort ? 1 : 0)));
 }
 static int SenderOf(const IPAddressAndPort & a) {for (int s=1; s<8; s++) if (AddrOf(s) == a) return s; return -1;}
+
+#ifdef TUN_PRIVATE_STATE
+// whatever the table of ReceiveStates is keyed by: does this key stand for that source?
+static bool KeyIs(const IPAddressAndPort & k, const IPAddressAndPort & a) {return k == a;}
+static bool KeyIs(const IPAddress & k, const IPAddressAndPort & a) {return k == a.GetIPAddress();}
+template<class K> static bool KeyIs(const K &, const IPAddressAndPort &) {return false;}
+#endif
 
 struct Packet {std::string bytes; int src;};
 static uint32 Word(const std::string & p, size_t o) {return DefaultEndianConverter::Import<uint32>(p.data() + o);}
@@ -216,7 +237,7 @@ struct World
 
    World(bool isMini, int sl, uint32 m, int nSenders, uint32 maxIncoming) : mini(isMini), slave(sl), mtu(m), ns(nSenders), comp(false), rxio(NULL), maxIn(maxIncoming), nPackets(0), nDeliveries(0), nCompressed(0)
    {
-      packedUpTo.assign(ns + 1, 0); firstId.assign(ns + 1, 0);
+      packedUpTo.assign(ns + 1, 0); firstId.assign(ns + 1, 0); maybeHeld.assign(ns + 1, 0);
       tx.resize(ns + 1); txio.resize(ns + 1, NULL); sent.resize(ns + 1); net.resize(ns + 1); cnt.resize(ns + 1); order.resize(ns + 1); heldLevel.resize(ns + 1); garbled.resize(ns + 1);
       for (int s=1; s<=ns; s++) { tx[s] = Make(); txio[s] = new ScriptIO(mtu); tx[s]()->SetDataIO(DataIORef(txio[s])); }
       rx = Make(); rxio = new ScriptIO(mtu); rx()->SetDataIO(DataIORef(rxio)); rcv.slave = slave;
@@ -227,6 +248,26 @@ struct World
       if (mini) return AbstractMessageIOGatewayRef(new MiniPacketTunnelIOGateway(MakeSlave(slave), mtu));
       return AbstractMessageIOGatewayRef(new PacketTunnelIOGateway(MakeSlave(slave), mtu));
    }
+   // is a packet kept in the sender's output buffer (a Write() of it returned 0)?  Without access to the private state: may one be
+   bool Held(int s) const
+   {
+#ifdef TUN_PRIVATE_STATE
+      return mini ? (M(tx[s])->_outputPacketSize > 0) : (T(tx[s])->_outputPacketSize > 0);
+#else
+      return maybeHeld[s];
+#endif
+   }
+   // the id of the sender's first Message / packet; false if it cannot be set (public API only: it stays 0)
+   bool SetFirstId(int s, uint32 v)
+   {
+#ifdef TUN_PRIVATE_STATE
+      if (mini) M(tx[s])->_sendPacketIDCounter = v & 0xFFFFFF; else T(tx[s])->_sendMessageIDCounter = v;
+      firstId[s] = mini ? (v & 0xFFFFFF) : v; return true;
+#else
+      (void) v; firstId[s] = 0; return false;
+#endif
+   }
+   std::vector<char> maybeHeld;
    static PacketTunnelIOGateway * T(const AbstractMessageIOGatewayRef & g) {return static_cast<PacketTunnelIOGateway *>(g());}
    static MiniPacketTunnelIOGateway * M(const AbstractMessageIOGatewayRef & g) {return static_cast<MiniPacketTunnelIOGateway *>(g());}
    void V(const std::string & s) {if (violations.size() < 6) violations.push_back(s);}
@@ -249,13 +290,15 @@ struct World
       if (mini)
       {
          M(tx[s])->SetZLibCompressionLevel((uint8) level);
-         if (M(tx[s])->_outputPacketSize > 0) heldLevel[s].push_back(level);   // a held packet lives through this call too
+         if (Held(s)) heldLevel[s].push_back(level);   // a held packet lives through this call too
       }
+      const bool hadWork = (tx[s]()->HasBytesToOutput())||(Held(s));
       const size_t first = net[s].size();
       txio[s]->budget = (mode == 2) ? 0 : -1;
       (void) tx[s]()->DoOutput((mode == 1) ? 1 : MUSCLE_NO_LIMIT);
       txio[s]->budget = -1;
-      if (getenv("TUN_DEBUG")) fprintf(stderr, "Out s=%d mode=%d level=%d wrote=%zu held=%u\n", s, mode, level, txio[s]->outq.size(), mini ? M(tx[s])->_outputPacketSize : T(tx[s])->_outputPacketSize);
+      maybeHeld[s] = ((mode == 2)&&(hadWork)) ? 1 : 0;
+      if (getenv("TUN_DEBUG")) fprintf(stderr, "Out s=%d mode=%d level=%d wrote=%zu held=%d\n", s, mode, level, txio[s]->outq.size(), (int) Held(s));
       for (size_t i=0; i<txio[s]->outq.size(); i++)
       {
          const std::string & p = txio[s]->outq[i];
@@ -270,7 +313,7 @@ struct World
          net[s].push_back(p); cnt[s].push_back(0); nPackets++;
       }
       txio[s]->outq.clear();
-      if (mini) { if (M(tx[s])->_outputPacketSize > 0) {if (heldLevel[s].empty()) heldLevel[s].push_back(level);} else heldLevel[s].clear(); }
+      if (mini) { if (Held(s)) {if (heldLevel[s].empty()) heldLevel[s].push_back(level);} else heldLevel[s].clear(); }
       return first;
    }
    // does the level byte of a mini-tunnel packet disagree with its payload?
@@ -414,7 +457,7 @@ struct World
       for (int s=1; s<=ns; s++)
       {
          if (tx[s]()->HasBytesToOutput()) return false;
-         if (mini ? (M(tx[s])->_outputPacketSize > 0) : (T(tx[s])->_outputPacketSize > 0)) return false;
+         if (Held(s)) return false;
          for (size_t k=0; k<cnt[s].size(); k++) if (cnt[s][k] != 1) return false;
          for (size_t k=0; k<order[s].size(); k++) if (order[s][k] != (int) k + 1) return false;
       }
@@ -511,7 +554,7 @@ static void ReplayOne(const Cfg & c, const mj::Value & beh, mj::Value & rep, uin
    World w(c.mini, c.slave, c.mtu * U, c.ns, ((!c.mini)&&(c.maxin >= 0)) ? (uint32) (c.maxin * U) : MUSCLE_NO_LIMIT);
    w.comp = c.comp;
    std::vector<uint32> idOfFirst(c.ns + 1, c.idbase);
-   for (int s=1; s<=c.ns; s++) { w.firstId[s] = c.idbase; if (c.mini) World::M(w.tx[s])->_sendPacketIDCounter = c.idbase; else World::T(w.tx[s])->_sendMessageIDCounter = c.idbase; }
+   for (int s=1; s<=c.ns; s++) (void) w.SetFirstId(s, c.idbase);      // (c.idbase is 0 when the counters cannot be set)
    const mj::Value & steps = beh["steps"];
    // stop = the code has left the behaviour: the remaining steps are still executed (as far as they can be) and judged by the
    // TunAbs monitor, but no longer compared with the specification
@@ -581,6 +624,7 @@ static void ReplayOne(const Cfg & c, const mj::Value & beh, mj::Value & rep, uin
             }
          }
          // projected send cursor
+#ifdef TUN_PRIVATE_STATE
          if (!stop)
          {
             if (!c.mini)
@@ -600,6 +644,7 @@ static void ReplayOne(const Cfg & c, const mj::Value & beh, mj::Value & rep, uin
                   w.D(at + "send cursor (packet id " + I(g->_sendPacketIDCounter) + " held " + I(g->_outputPacketSize) + " queued " + I(left) + ") differs from the specification's (packet id " + I(epid) + " held " + I(st["held"].i() * U) + " queued " + I(st["left"].i()) + ")");
             }
          }
+#endif
       }
       else if (a == "Deliver")
       {
@@ -634,20 +679,24 @@ static void ReplayOne(const Cfg & c, const mj::Value & beh, mj::Value & rep, uin
             for (size_t j=0; (j<g.size())&&(j<3); j++) d += "; got #" + I((int64_t) j + 1) + " from " + I(g[j].src) + " " + I((int64_t) g[j].key.size()) + " bytes " + w.Describe(g[j].key);
             w.D(d); stop = true;
          }
+#ifdef TUN_PRIVATE_STATE
          if ((!c.mini)&&(!stop))
          {
+            // the ReceiveState of source s, found by walking the table (whatever it is keyed by)
             const PacketTunnelIOGateway * r = World::T(w.rx);
-            const IPAddressAndPort key = AddrOf(s);
-            const bool have = r->_receiveStates.ContainsKey(key);
+            const IPAddressAndPort src = AddrOf(s);
+            bool have = false; uint32 id = 0, off = 0, size = 0;
+            for (auto it = r->_receiveStates.GetIterator(); it.HasData(); it++)
+               if (KeyIs(it.GetKey(), src)) { have = true; id = it.GetValue()._messageID; off = it.GetValue()._offset; size = it.GetValue()._buf() ? it.GetValue()._buf()->GetNumBytes() : 0; }
             if (have != st["have"].truthy()) w.D(at + "ReceiveState of source " + I(s) + (have ? " exists" : " does not exist") + ", the specification says otherwise");
             else if (have)
             {
-               const uint32 id = r->_receiveStates[key]._messageID, off = r->_receiveStates[key]._offset, size = r->_receiveStates[key]._buf() ? r->_receiveStates[key]._buf()->GetNumBytes() : 0;
                const uint32 eid = c.idbase + (uint32) ((st["id"].i() - c.firstid + c.idspace) % c.idspace);
                if ((id != eid)||(off != st["off"].i() * U)||(size != st["size"].i() * U))
                   w.D(at + "ReceiveState of source " + I(s) + " (id " + I(id) + " offset " + I(off) + " size " + I(size) + ") differs from the specification's (id " + I(eid) + " offset " + I(st["off"].i() * U) + " size " + I(st["size"].i() * U) + ")");
             }
          }
+#endif
       }
       else {w.D(at + "unknown action"); stop = true;}
       if (!w.violations.empty()) break;
@@ -655,7 +704,7 @@ static void ReplayOne(const Cfg & c, const mj::Value & beh, mj::Value & rep, uin
    if ((c.perfect)&&(stop)&&(w.violations.empty()))
    {
       // the code left the behaviour: bring the perfect network to rest so that clause 2 can still be judged
-      for (int s=1; s<=c.ns; s++) { int gd = 0; while(((w.tx[s]()->HasBytesToOutput())||(c.mini ? (World::M(w.tx[s])->_outputPacketSize > 0) : (World::T(w.tx[s])->_outputPacketSize > 0)))&&(gd++ < 1000)) (void) w.Out(s, 0, 0); }
+      for (int s=1; s<=c.ns; s++) { int gd = 0; while(((w.tx[s]()->HasBytesToOutput())||(w.Held(s)))&&(gd++ < 1000)) (void) w.Out(s, 0, 0); }
       for (int s=1; s<=c.ns; s++) for (size_t k=0; (k<w.net[s].size())&&(w.violations.empty()); k++) if (w.cnt[s][k] == 0) (void) w.Deliver(s, (int) k + 1);
    }
    if ((c.perfect)&&(w.violations.empty())&&(w.Quiet())) {w.Clause2(idOfFirst); tot[4]++;}
@@ -686,6 +735,7 @@ static int Replay(const char * in, const char * out)
    c.maxin = cv.has("maxin") ? cv["maxin"].i() : -1; c.slave = SlaveByName(cv["slave"].str()); c.idbase = (uint32) cv["idbase"].i(); c.firstid = cv["firstid"].i(); c.idspace = cv["idspace"].i(); c.comp = cv["compressible"].truthy();
    if ((c.slave < 0)||(c.unit == 0)||(c.idspace <= 0)) {fprintf(stderr, "bad config\n"); return 3;}
    g_addrMode = (int) cv["addrmode"].i();
+   if (!PRIVATE_STATE) c.idbase = 0;      // the id counters cannot be set through the public API
    FILE * fo = fopen(out, "w"); if (!fo) return 3;
    uint64_t tot[8] = {0, 0, 0, 0, 0, 0, 0, 0}; uint64_t nb = 0, followed = 0, drifted = 0, violated = 0, knownHits = 0;
    for (size_t i=1; i<lines.size(); i++)
@@ -701,7 +751,7 @@ static int Replay(const char * in, const char * out)
    s.set("summary", mj::Value::Bool(true)).set("behaviours", mj::Value::Int((int64_t) nb)).set("followed", mj::Value::Int((int64_t) followed)).set("drifted", mj::Value::Int((int64_t) drifted)).set("violated", mj::Value::Int((int64_t) violated))
     .set("known", mj::Value::Int((int64_t) knownHits)).set("steps", mj::Value::Int((int64_t) tot[0])).set("packets", mj::Value::Int((int64_t) tot[1])).set("deliveries", mj::Value::Int((int64_t) tot[2]))
     .set("compressed_packets", mj::Value::Int((int64_t) tot[3])).set("clause2_judged", mj::Value::Int((int64_t) tot[4])).set("slave", mj::Value::Str(SLN[c.slave]))
-    .set("shared_split_packets_perfect", mj::Value::Int((int64_t) tot[5])).set("shared_split_packets_faulty", mj::Value::Int((int64_t) tot[6]));
+    .set("private_state", mj::Value::Bool(PRIVATE_STATE)).set("shared_split_packets_perfect", mj::Value::Int((int64_t) tot[5])).set("shared_split_packets_faulty", mj::Value::Int((int64_t) tot[6]));
    WriteLine(fo, s); fclose(fo);
    return 0;
 }
@@ -780,9 +830,8 @@ static void ExploreOne(uint64_t seed, uint32 iter, uint32 iters, uint32 mtuLo, u
    for (int s=1; s<=ns; s++)
    {
       // message-id / packet-id wrap-around inside the run, for a third of the senders
-      if (g.R(3) == 0) { const uint32 back = g.R(6); if (mini) World::M(w.tx[s])->_sendPacketIDCounter = (16777216u - back) & 0xFFFFFF; else World::T(w.tx[s])->_sendMessageIDCounter = 0u - back; }
-      idOfFirst[s] = mini ? World::M(w.tx[s])->_sendPacketIDCounter : World::T(w.tx[s])->_sendMessageIDCounter;
-      w.firstId[s] = idOfFirst[s];
+      if (g.R(3) == 0) { const uint32 back = g.R(6); (void) w.SetFirstId(s, mini ? ((16777216u - back) & 0xFFFFFF) : (0u - back)); }
+      idOfFirst[s] = w.firstId[s];
    }
    mj::Value r0 = E("Reset"); r0.set("perfect", mj::Value::Bool(perfect)); if (tr) tr->Ev(r0);
    std::vector<int> lastN(ns + 1, 0);
@@ -841,7 +890,7 @@ static void ExploreOne(uint64_t seed, uint32 iter, uint32 iters, uint32 mtuLo, u
    // drain: write everything, hand over everything that is still pending
    if (w.violations.empty())
    {
-      for (int s=1; s<=ns; s++) { int gd = 0; while(((w.tx[s]()->HasBytesToOutput())||(mini ? (World::M(w.tx[s])->_outputPacketSize > 0) : (World::T(w.tx[s])->_outputPacketSize > 0)))&&(gd++ < 1000)) (void) w.Out(s, 0, level); }
+      for (int s=1; s<=ns; s++) { int gd = 0; while(((w.tx[s]()->HasBytesToOutput())||(w.Held(s)))&&(gd++ < 1000)) (void) w.Out(s, 0, level); }
       for (int q=1; q<=ns; q++) for (; logged[q] < w.net[q].size(); logged[q]++)
       {
          const int k = (int) logged[q] + 1;
@@ -902,7 +951,7 @@ static int Explore(uint32 iters, uint64_t seed, const char * out, const char * t
     .set("compressed_packets", mj::Value::Int((int64_t) tot[3])).set("clause2_judged", mj::Value::Int((int64_t) tot[4])).set("messages", mj::Value::Int((int64_t) tot[5]))
     .set("packets_lost", mj::Value::Int((int64_t) tot[6])).set("packets_duplicated", mj::Value::Int((int64_t) tot[7]))
     .set("violated", mj::Value::Int((int64_t) violated)).set("drifted", mj::Value::Int((int64_t) drifted)).set("known", mj::Value::Int((int64_t) knownHits))
-    .set("distinct_mtus", mj::Value::Int((int64_t) mtus.size())).set("mtu_sweep_complete", mj::Value::Bool(iters / 12 >= ((mtuHi > mtuLo) ? (mtuHi - mtuLo + 1) : 1)))
+    .set("private_state", mj::Value::Bool(PRIVATE_STATE)).set("distinct_mtus", mj::Value::Int((int64_t) mtus.size())).set("mtu_sweep_complete", mj::Value::Bool(iters / 12 >= ((mtuHi > mtuLo) ? (mtuHi - mtuLo + 1) : 1)))
     .set("traces_written", mj::Value::Int((int64_t) traces)).set("trace_lines", mj::Value::Int((int64_t) tr.lines)).set("sample", sample);
    WriteLine(fo, s); fclose(fo);
    return 0;
@@ -972,10 +1021,11 @@ static int Directed(const char * out)
       if (w.nCompressed == 0) w.D("expected a deflated packet");
       Case(fo, "F32-c", w, "mini tunnel, level 6 throughout: Messages of 3 and 0 bytes held (deflating does not help), then 0, 140, 0 bytes added (now it does)", !w.violations.empty());
    }
+#ifdef TUN_PRIVATE_STATE
    // message-id wrap-around at 2^32 (tunnel) and packet-id wrap-around at 2^24 (mini tunnel), with compression on (the id shares a word with the level)
    {
       World w(false, SL_EXACT, 60, 1, MUSCLE_NO_LIMIT); std::vector<uint32> f(2, 0xFFFFFFFEu);
-      World::T(w.tx[1])->_sendMessageIDCounter = 0xFFFFFFFEu; w.firstId[1] = 0xFFFFFFFEu;
+      (void) w.SetFirstId(1, 0xFFFFFFFEu);
       for (int i=0; i<5; i++) (void) w.Send(1, 50 + 20 * i);
       PerfectRun(w, f);
       if (World::T(w.tx[1])->_sendMessageIDCounter != 3) w.D("message id after the wrap is " + I(World::T(w.tx[1])->_sendMessageIDCounter));
@@ -984,7 +1034,7 @@ static int Directed(const char * out)
    for (int lvl=0; lvl<=6; lvl+=6)
    {
       World w(true, SL_EXACT, 200, 1, MUSCLE_NO_LIMIT); w.comp = true; std::vector<uint32> f(2, 0);
-      World::M(w.tx[1])->_sendPacketIDCounter = 16777214u;
+      (void) w.SetFirstId(1, 16777214u);
       for (int i=0; i<5; i++) { (void) w.Send(1, 120 + i); (void) w.Out(1, 0, lvl); }
       for (size_t k=0; k<w.net[1].size(); k++) (void) w.Deliver(1, (int) k + 1);
       w.Clause2(f);
@@ -1005,7 +1055,10 @@ static int Directed(const char * out)
          .set("note", mj::Value::Str(mixed ? ("with the message id forced to repeat (= 2^32 Messages later) and equal sizes, head of the old + tail of the new Message are handed over as one: " + w.Describe(g[0].key)) : "not reproduced"));
       WriteLine(fo, r);
    }
-   mj::Value s = mj::Value::Obj(); s.set("summary", mj::Value::Bool(true)); WriteLine(fo, s);
+#else
+   { mj::Value r = mj::Value::Obj(); r.set("case", mj::Value::Str("wrap-around")).set("reproduced", mj::Value::Bool(false)).set("skipped", mj::Value::Bool(true)).set("note", mj::Value::Str("id wrap-around cases need the private id counters: skipped in the public-API build")); WriteLine(fo, r); }
+#endif
+   mj::Value s = mj::Value::Obj(); s.set("summary", mj::Value::Bool(true)).set("private_state", mj::Value::Bool(PRIVATE_STATE)); WriteLine(fo, s);
    fclose(fo);
    return 0;
 }
